@@ -391,7 +391,7 @@ class Exec:
         if m: return BitVecVal(int(m.group(1), 16), 32)
         m = re.match(r"'\\(.)'$", c)
         if m: return BitVecVal(ord({'n': '\n', 't': '\t', 'r': '\r', '0': '\0', "'": "'", '\\': '\\'}[m.group(1)]), 32)
-        m = re.match(r'(?:.*::)?(?:(\w+)::<.*>|(\w+))::(\w+)$', c)
+        m = re.match(r'(?:.*::)?<impl (\w+)>()::(\w+)$', c) or re.match(r'(?:.*::)?(?:(\w+)::<.*>|(\w+))::(\w+)$', c)
         if m:
             ty = m.group(1) or m.group(2); var = m.group(3)
             if ty in self.variants and var in self.variants[ty]:
@@ -589,9 +589,12 @@ class Exec:
             return [copy.deepcopy(v) for _ in range(int(m.group(1)))]
         if k == 'adt':
             ty, var, args = ty_last(rv[1]), rv[2], [self.operand(fr, o) for o in rv[3]]
+            # enums of other crates whose last path segment collides with a local one (serde_json::Value vs varpulis_core::Value)
+            ty = getattr(self, 'aliases', {}).get(M.strip_generics(rv[1]), ty)
             if ty == '' and lhs is not None:
                 # `_0 = Foo(args)` tuple-struct constructor or bare unit variant: decide by lhs type
-                lt = ty_last(self.place_type(fr, lhs))
+                pt = self.place_type(fr, lhs)
+                lt = getattr(self, 'aliases', {}).get(M.strip_generics(pt).strip(), ty_last(pt))
                 if lt in self.variants and var in self.variants[lt]: ty = lt
                 else: return args
             h = self.adt_hook(ty, var, args)
